@@ -1137,6 +1137,30 @@ pub struct PackageTemplate {
 	height_timer: u32,
 }
 
+#[cfg(feature = "verif_hooks")]
+impl PackageTemplate {
+	/// Which parts of two packages differ (diagnostic for the round-trip oracle, verif C12).
+	pub(crate) fn verif_diff(&self, o: &Self) -> Vec<&'static str> {
+		let mut out = Vec::new();
+		if self.inputs != o.inputs {
+			out.push("inputs");
+		}
+		if self.malleability != o.malleability {
+			out.push("malleability");
+		}
+		if self.counterparty_spendable_height != o.counterparty_spendable_height {
+			out.push("counterparty_spendable_height");
+		}
+		if self.feerate_previous != o.feerate_previous {
+			out.push("feerate_previous");
+		}
+		if self.height_timer != o.height_timer {
+			out.push("height_timer");
+		}
+		out
+	}
+}
+
 impl PartialEq for PackageTemplate {
 	fn eq(&self, o: &Self) -> bool {
 		if self.inputs != o.inputs
